@@ -491,10 +491,6 @@ package rtpconn
 //@ extern group.GetSubGroups
 //@   why group.go: lists the subgroups with their client counts under groups.mu and each g.mu
 //@   modifies nothing
-//@ extern diskwriter.New
-//@   why diskwriter.go: creates a recording client for g; no effect on the web client
-//@   modifies nothing
-//@   ensures made: isnil(result1) ==> result0 != nil && fresh(result0)
 //@ extern (*diskwriter.Client).Close
 //@   why diskwriter.go: closes the recorder's connections and leaves the group
 //@   modifies nothing
@@ -745,6 +741,9 @@ package rtpconn
 //@   -- C12: a queued membership event may be handled after the client has left its group (c.group == nil)
 //@   assert at call pushDownConn same-group: c.group != nil
 //@   assert at call Name#1 member: c.group != nil
+//@   -- C15: the history replayed to a joiner carries, entry by entry, the id, source, username, kind and value that were recorded
+//@   assert at call write#4 replay-authentic: arg_m.Type == "chathistory" && arg_m.Id == m.Id && arg_m.Source == m.Source && arg_m.Username == m.User
+//@        && arg_m.Kind == m.Kind && arg_m.Value == m.Value
 //@   -- C11: a permission change decided by an operator of a group is applied only while the client is still a member of THAT group
 //@   -- (the change used to carry no group and followed the client into the next group it joined: repaired)
 //@   assert at call addnew in-deciding-group: c.group != nil && c.group.name == a$7.group
